@@ -15,7 +15,10 @@ package main
 //       first YieldRef.  Observation: "ok total=<T> first=<V|nil|none>"  or  "viol <kind> ...".
 //   zero ty=T     one caller asks [zero,5,zero,6], the target yields [3,zero,4,zero] (zero of T: 0 / nil) -> "ok zero"
 //   donot v=V     DoNotation returns the effect's result          -> "ok <V>"
-//   yfio v=V      YieldFromIO returns the IO's value              -> "ok <V>"
+//   donotyf v=V   the effect of DoNotation uses the coroutine it is given: self.YieldFrom(target, V), the target yields
+//                 V+100                                            -> "ok <V+100> saw=<V>"
+//   yfio v=V [on=1] [flat=1] [slow=ms]  YieldFromIO returns the IO's value (sync / observed on a Handler / FlatMap
+//                 chain v->v+1 / slow IO), evaluated exactly once  -> "ok <V>" ("ok <V+1>" for flat=1)
 //   flags         IsStarted/IsDone before Start, while running, after the effect returned -> "b0 b0 b1 b0 b1 b1"
 
 import (
@@ -24,6 +27,7 @@ import (
 	"strconv"
 	"strings"
 	"sync"
+	"sync/atomic"
 	"time"
 
 	fpgo "github.com/TeaEntityLab/fpGo/v2"
@@ -341,17 +345,67 @@ func c14Run(line string) string {
 		var c fpgo.CorDef[int]
 		r := c.DoNotation(func(self *fpgo.CorDef[int]) int { return v })
 		return "ok " + strconv.Itoa(r)
-	case "yfio":
+	case "donotyf":
+		// the coroutine DoNotation hands to the effect is a working caller: the effect asks another coroutine
 		v, _ := strconv.Atoi(par["v"])
-		var c fpgo.CorDef[int]
-		evals := 0
-		r := c.DoNotation(func(self *fpgo.CorDef[int]) int {
-			return self.YieldFromIO(fpgo.MonadIONewGenerics(func() int { evals++; return v }))
-		})
-		if evals != 1 {
-			return "viol io-evaluated " + strconv.Itoa(evals)
+		saw := -1
+		var tg *fpgo.CorDef[int]
+		tg = fpgo.CorNewGenerics[int](func() { saw = tg.YieldRef(v + 100) })
+		tg.Start()
+		res := make(chan int, 1)
+		go func() {
+			var c fpgo.CorDef[int]
+			res <- c.DoNotation(func(self *fpgo.CorDef[int]) int { return self.YieldFrom(tg, v) })
+		}()
+		select {
+		case r := <-res:
+			deadline := time.Now().Add(3 * time.Second)
+			for !tg.IsDone() && time.Now().Before(deadline) {
+				time.Sleep(100 * time.Microsecond)
+			}
+			if !tg.IsDone() {
+				return "viol hang target-never-finished"
+			}
+			return fmt.Sprintf("ok %d saw=%d", r, saw)
+		case <-time.After(5 * time.Second):
+			return "viol hang DoNotation-never-returned"
 		}
-		return "ok " + strconv.Itoa(r)
+	case "yfio":
+		// on=1: the IO is observed on a Handler (its effect runs on the handler's goroutine, YieldFromIO has to wait
+		// for it); flat=1: the IO is a FlatMap chain (v -> v+1); slow=<ms>: the IO takes that long
+		v, _ := strconv.Atoi(par["v"])
+		slow, _ := strconv.Atoi(par["slow"])
+		var evals int32
+		io := fpgo.MonadIONewGenerics(func() int {
+			atomic.AddInt32(&evals, 1)
+			if slow > 0 {
+				time.Sleep(time.Duration(slow) * time.Millisecond)
+			}
+			return v
+		})
+		if par["flat"] == "1" {
+			io = io.FlatMap(func(x int) *fpgo.MonadIODef[int] { return fpgo.MonadIOJustGenerics(x + 1) })
+		}
+		var h *fpgo.HandlerDef
+		if par["on"] == "1" {
+			h = fpgo.Handler.New()
+			defer h.Close()
+			io = io.ObserveOn(h)
+		}
+		res := make(chan int, 1)
+		go func() {
+			var c fpgo.CorDef[int]
+			res <- c.DoNotation(func(self *fpgo.CorDef[int]) int { return self.YieldFromIO(io) })
+		}()
+		select {
+		case r := <-res:
+			if n := atomic.LoadInt32(&evals); n != 1 {
+				return "viol io-evaluated " + strconv.Itoa(int(n))
+			}
+			return "ok " + strconv.Itoa(r)
+		case <-time.After(5*time.Second + time.Duration(slow)*time.Millisecond):
+			return "viol hang YieldFromIO-never-returned"
+		}
 	case "flags":
 		gate := make(chan struct{})
 		inside := make(chan struct{})
@@ -405,8 +459,14 @@ func c14Gen(tier string, rng *rand.Rand, emit func(string)) map[string]interface
 	}
 	e("donot v=0")
 	e("donot v=41")
+	e("donotyf v=5")
+	e("donotyf v=0")
 	e("yfio v=7")
 	e("yfio v=0")
+	e("yfio v=8 on=1")
+	e("yfio v=9 on=1 slow=30")
+	e("yfio v=10 flat=1")
+	e("yfio v=11 flat=1 on=1 slow=10")
 	e("flags")
 	rounds := 30
 	if tier == "thorough" {
